@@ -249,8 +249,8 @@ def gen_cases(rng, tier):
     # every one-act script over sets of size <= 2 (3 thorough), all kinds
     cases += list(_exhaustive(3 if tier == "quick" else 4, KINDS, True))
     nest = list(_nested_sweep())
-    cases += nest if tier != "quick" else nest[::3]
-    n = 1500 if tier == "quick" else 15000
+    cases += nest if tier != "quick" else nest[::4]
+    n = 1100 if tier == "quick" else 15000
     for i in range(n):
         cases.append(_rand_case(rng, big=(i % 5 == 0)))
     return cases
